@@ -8,6 +8,7 @@ structure DS7 where
   base : DS := {}
   adb : List UInt8 := []                 -- the alignment database
   assi : Option (List UInt8) := none     -- the index file esl-afetch --index wrote
+  tssi : Option Ssi := none              -- the index `esl-sfetch --index` (run as a tool, op `toolcmd`) left on disk for the current file
   deriving Inhabited
 
 namespace AfetchDriver
@@ -64,10 +65,91 @@ def step (s : DS7) (ws : List String) : DS7 × String :=
 
 end AfetchDriver
 
+/-! ## `toolcmd`: esl-sfetch run as a tool (its real `main()` in a child process), predicted from the model
+
+A fresh text-mode handle on the current file (`--informat <fmt>`, the read-block size of the hook), the index the tool itself wrote
+earlier (`--index`), then the tool's own paths: `onefetch` (Echo, or Read + reverse complement / rename + Write with `-r` / `-n`),
+`onefetch_subseq` (`-c`; coordinates `from > to` and `-r` each reverse-complement, both cancel), `multifetch` (`-f`),
+`multifetch_subseq` (`-C -f`). The session handle of the case is not touched. -/
+namespace ToolDriver
+
+def die (s : DS7) : DS7 × String := (s, "die")
+
+def run (s : DS7) (ws : List String) : DS7 × String :=
+  let fmt := (arg? ws "fmt").getD "fasta"
+  let B := (argNat? ws "B").getD 4096
+  let mode := (arg? ws "mode").getD "one"
+  let rflag := (argNat? ws "r").getD 0 != 0
+  let newname : Option Bytes := (argHex? ws "n").map List.toArray
+  let (b1, r1) := EaselModel.Sqio.step { s.base with a := none, ssi := none, dead := false } s!"open fmt={fmt} abc=text B={B}"
+  if !r1.startsWith "ok" then die s else
+  -- main(): every retrieval mode opens the SSI index of a plain file first and ends with "Failed to open SSI index" without one
+  if mode != "index" && s.tssi.isNone then die s else
+  match mode with
+  | "index" =>
+    let (b2, r2) := EaselModel.Sqio.step b1 "index"
+    if r2.startsWith "ok" then ({ s with tssi := b2.ssi }, r2) else ({ s with tssi := none }, "die")
+  | "list" =>
+    let (_, r2) := EaselModel.Sqio.step { b1 with ssi := s.tssi } s!"toolmulti text={(arg? ws "text").getD "-"}"
+    if r2.startsWith "ok" then (s, r2) else die s
+  | "sublist" =>
+    match s.tssi with
+    | none => die s
+    | some _ =>
+      let (_, r2) := EaselModel.Sqio.step { b1 with ssi := s.tssi } s!"toolmultisub text={(arg? ws "text").getD "-"}"
+      if r2.startsWith "ok" then (s, r2) else die s
+  | "sub" =>
+    match s.tssi, b1.a, argHex? ws "key", argInt? ws "s", argInt? ws "e" with
+    | some ssi, some a, some k, some gs, some ge =>
+      let (st0, en, rc) := if ge != 0 && gs > ge then (ge, gs, true) else (gs, ge, false)
+      let (_, sq, st) := fetchSubseq a ssi (freshSq 0) k.toArray st0 en
+      if st != .ok then die s else
+      let nm := match newname with
+        | some n => n
+        | none => k.toArray ++ #[47] ++ decBytes gs ++ #[45] ++ decBytes (if ge == 0 then sq.L else ge)
+      let sq := { sq with name := nm }
+      let (sq, st1, _) := if rc then revcomp sq else (sq, Status.ok, false)
+      if st1 != .ok then die s else
+      let (sq, st2, _) := if rflag then revcomp sq else (sq, Status.ok, false)
+      if st2 != .ok then die s else
+      (s, s!"ok hex={hexOrDash (writeFasta sq)}")
+    | _, _, _, _, _ => die s
+  | _ =>   -- "one"
+    if !rflag && newname.isNone then
+      let (_, r2) := EaselModel.Sqio.step { b1 with ssi := s.tssi } s!"toolfetch key={(arg? ws "key").getD "-"}"
+      if r2.startsWith "ok" then (s, r2) else die s
+    else
+      match b1.a, argHex? ws "key" with
+      | some a, some k =>
+        let found : Option Sq :=
+          match s.tssi with
+          | some ssi =>
+            match ssi.findName k.toArray with
+            | none => none
+            | some e =>
+              if e.roff < 0 then none else
+              let (a, st) := position a e.roff.toNat
+              if st != .ok then none else
+              let (_, sq, st) := read a (freshSq 0)
+              if st != .ok then none else some sq
+          | none => (scanFetchLoop (s.base.file.size + 2) a k.toArray).map (·.2)
+        match found with
+        | none => die s
+        | some sq =>
+          let (sq, st1, _) := if rflag then revcomp sq else (sq, Status.ok, false)
+          if st1 != .ok then die s else
+          let sq := match newname with | some n => { sq with name := n } | none => sq
+          (s, s!"ok hex={hexOrDash (writeFasta sq)}")
+      | _, _ => die s
+
+end ToolDriver
+
 def step7 (s : DS7) (line : String) : DS7 × String :=
   let ws := words line
   match ws with
   | "adb" :: _ | "aget" :: _ | "ascan" :: _ => AfetchDriver.step s ws
+  | "toolcmd" :: _ => if s.base.unmodelled then (s, "unmodelled") else ToolDriver.run s ws
+  | "file" :: _ => let (b, r) := step s.base line; ({ s with base := b, tssi := none }, r)
   | _ => let (b, r) := step s.base line; ({ s with base := b }, r)
 
 def main : IO Unit := runDriver ({} : DS7) step7
